@@ -128,8 +128,11 @@ LEVEL_TEXT.update({
                   "call and not after the step that returned, at which the key map held exactly what the read returned, and the returned bytes are the blob stored "
                   "under that item's hash at q); C05_final_contents_are_a_sequential_order_of_the_writes (when all threads have finished, the key map is the fold of a "
                   "log of write operations, sorted by application step, with exactly one entry per acknowledged writing call, each strictly inside its call's interval); "
-                  "C05_write_order_respects_real_time; C05_completed_put_is_visible. K6 with readers parked between lookup and open and model-free schedule "
-                  "exploration; oracle: each read result is a value the key held during the call.",
+                  "C05_write_order_respects_real_time; C05_completed_put_is_visible; C05_range_read_linearizable and C05_range_answer_is_sequential_get_range (a ranged read "
+                  "returns what the sequential get_range gives on the blob the key held at one instant of the call, including the empty-range and invalid-range exits); "
+                  "C05_iteration_is_a_snapshot (an iteration returns the key list of one instant); C05_calls_linearizable (every call kind). K6 with get / get_reader / "
+                  "get_range / get_size / iteration, readers parked between lookup and open, and model-free schedule exploration; oracle: each read result is the WHOLE "
+                  "content (or the exact slice) of a value the key held during the call, each iteration the key list of one instant.",
              note=BASE_NOTE + "The model interleaves whole lock-protected sections of the real code (scheduling points = the verif::point hooks); relaxed-memory effects and "
                               "the fairness of the real RwLock/Mutex are outside it. remove/remove_range are documented as not strictly atomic (they scan, then apply): the "
                               "theorems linearize their read at the scan step and their write at the apply step."),
